@@ -189,8 +189,16 @@ func engBytes(seed int64, tier string, _ []string, out *sx.Out) {
 			v := []byte{3, 4, 5}[rng.Intn(3)]
 			att.Version = v
 			cp := broker.ConnectPk("attacker", v, rng.Intn(2) == 0)
-			if rng.Intn(3) == 0 {
+			if rng.Intn(2) == 0 {
 				cp.Connect.WillFlag, cp.Connect.WillTopic, cp.Connect.WillPayload = true, "ref/will", []byte("w")
+				cp.Connect.WillRetain = rng.Intn(2) == 0
+				if v == 5 && rng.Intn(2) == 0 {
+					cp.Connect.WillProperties.WillDelayInterval = uint32(1 + rng.Intn(3))
+				}
+			}
+			if v == 5 && rng.Intn(2) == 0 {
+				cp.Properties.SessionExpiryIntervalFlag = true
+				cp.Properties.SessionExpiryInterval = uint32(rng.Intn(3) * 30)
 			}
 			b.SendPacket(att, cp)
 		}
@@ -232,6 +240,30 @@ func engBytes(seed int64, tier string, _ []string, out *sx.Out) {
 				chunks = append(chunks, sx.B(chunk))
 			}
 			// reference traffic
+			seq++
+			b.SendPacket(pub, broker.PublishPk("ref/n", []byte(strconv.FormatUint(seq, 10)), 0, false, 0))
+			sent = append(sent, sx.N(seq))
+			for _, o := range b.Drain() {
+				if o.Conn == sub.Idx {
+					for _, q := range o.Packets {
+						if q.FixedHeader.Type == packets.Publish && q.TopicName == "ref/n" {
+							v, _ := strconv.ParseUint(string(q.Payload), 10, 64)
+							recv = append(recv, sx.N(v))
+						}
+					}
+				}
+			}
+		}
+		// the session may end abruptly; then the broker's housekeeping runs over whatever the hostile
+		// session left behind (delayed wills, expired sessions, in-flight and retained messages) and
+		// the reference traffic must still flow afterwards
+		if rng.Intn(2) == 0 && !att.MC.Closed() && !att.Done() {
+			b.NetClose(att)
+		}
+		for _, kind := range []string{"will", "clients", "inflight", "retained", "will", "sys"} {
+			b.Tick(kind, time.Now().Unix()+int64(5+rng.Intn(200)))
+		}
+		if !b.Hung {
 			seq++
 			b.SendPacket(pub, broker.PublishPk("ref/n", []byte(strconv.FormatUint(seq, 10)), 0, false, 0))
 			sent = append(sent, sx.N(seq))
